@@ -33,6 +33,7 @@ def check(rr) -> list:
     out += idle_belief(rr, info)
     # probes
     info['waiting_corrections'] = waiting_corrections(rr)
+    C.reach_probes(rr, info)
     return C._dedup(out)
 
 
